@@ -13,6 +13,7 @@ def DevErr (e : Exc) : Prop := isResult e = true ∨ e = .dongleError
 theorem DevErr.ofResult {e : Exc} (h : isResult e = true) : DevErr e := Or.inl h
 
 namespace Dongle
+variable {lf : Bool}
 
 theorem mode_not_exit : (u8 Command_GET_MODE).toNat ≠ 0xFF ∧ (u8 Command_GET_MODE).toNat ≠ 0xFA := by decide
 theorem state_not_exit : (u8 Command_GET_STATE).toNat ≠ 0xFF ∧ (u8 Command_GET_STATE).toNat ≠ 0xFA := by decide
@@ -21,7 +22,7 @@ theorem params_not_exit : (u8 Command_GET_PARAMETERS).toNat ≠ 0xFF ∧ (u8 Com
 
 /-- `get_current_mode` against a conforming device: one of the three defined modes -/
 theorem getCurrentMode_safe :
-    Safe getCurrentMode (fun m => m = 2 ∨ m = 3 ∨ m = 4) (fun e => isResult e = true) := by
+    Safe lf getCurrentMode (fun m => m = 2 ∨ m = 3 ∨ m = 4) (fun e => isResult e = true) := by
   unfold getCurrentMode
   refine Safe.tryCatchIf (Q := fun m => m = 2 ∨ m = 3 ∨ m = 4) (E := fun e => isResult e = true) ?_ ?_ ?_ ?_
   · repeat' tracks_step
@@ -39,7 +40,7 @@ theorem getCurrentMode_safe :
     simp at hp
   · intro e he _; exact he
 
-theorem getSignerParameters_safe : Safe getSignerParameters (fun _ => True) DevErr := by
+theorem getSignerParameters_safe : Safe lf getSignerParameters (fun _ => True) DevErr := by
   unfold getSignerParameters
   refine Safe.bind (sendCommand_tracks _ _)
     ((sendCommand_safe' _ _ params_not_exit).weaken (fun _ h => h) fun _ h => Or.inl h) fun r _ => ?_
@@ -50,7 +51,7 @@ theorem getSignerParameters_safe : Safe getSignerParameters (fun _ => True) DevE
     · exact Safe.throw (Or.inr rfl)
     · exact Safe.pure trivial
 
-theorem getStateHash_safe (sel : Nat) : Safe (getStateHash sel) (fun _ => True) DevErr := by
+theorem getStateHash_safe (sel : Nat) : Safe lf (getStateHash sel) (fun _ => True) DevErr := by
   unfold getStateHash
   refine Safe.bind (sendCommand_tracks _ _)
     ((sendCommand_safe' _ _ state_not_exit).weaken (fun _ h => h) fun _ h => Or.inl h) fun r hr => ?_
@@ -68,7 +69,7 @@ theorem getStateHash_safe (sel : Nat) : Safe (getStateHash sel) (fun _ => True) 
     · exact Safe.throw (Or.inr rfl)
     · exact Safe.pure trivial
 
-theorem getStateHashes_safe : ∀ l, Safe (getStateHashes l) (fun _ => True) DevErr := by
+theorem getStateHashes_safe : ∀ l, Safe lf (getStateHashes l) (fun _ => True) DevErr := by
   intro l
   induction l with
   | nil => unfold getStateHashes; exact Safe.pure trivial
@@ -78,7 +79,7 @@ theorem getStateHashes_safe : ∀ l, Safe (getStateHashes l) (fun _ => True) Dev
     exact Safe.bind (getStateHash_tracks _) (getStateHash_safe _) fun _ _ =>
       Safe.bind (getStateHashes_tracks _) ih fun _ _ => Safe.pure trivial
 
-theorem getBlockchainState_safe : Safe getBlockchainState (fun _ => True) DevErr := by
+theorem getBlockchainState_safe : Safe lf getBlockchainState (fun _ => True) DevErr := by
   unfold getBlockchainState
   refine Safe.bind (getStateHashes_tracks _) (getStateHashes_safe _) fun hs _ => ?_
   refine Safe.bind (sendCommand_tracks _ _)
@@ -95,7 +96,7 @@ theorem getBlockchainState_safe : Safe getBlockchainState (fun _ => True) DevErr
     · exact Safe.throw (Or.inr rfl)
     · exact Safe.pure trivial
 
-theorem resetAdvanceBlockchain_safe : Safe resetAdvanceBlockchain (fun _ => True) DevErr := by
+theorem resetAdvanceBlockchain_safe : Safe lf resetAdvanceBlockchain (fun _ => True) DevErr := by
   unfold resetAdvanceBlockchain
   refine Safe.bind (sendCommand_tracks _ _)
     ((sendCommand_safe' _ _ reset_not_exit).weaken (fun _ h => h) fun _ h => Or.inl h) fun r hr => ?_
@@ -118,7 +119,7 @@ theorem conf_hb_get {cmd : Nat} {ops : List (String × Nat)} {b : Bytes} (hcmd :
 
 theorem heartbeatRun_safe (cmd : Nat) (ops : List (String × Nat)) (ud : Bytes) (hcmd : cmd = 96)
     (hget : dictGet ops "GET" 0 = 2) :
-    Safe (heartbeatRun cmd ops ud) (fun _ => True) (fun _ => False) := by
+    Safe lf (heartbeatRun cmd ops ud) (fun _ => True) (fun _ => False) := by
   have hx : (UInt8.ofNat cmd).toNat ≠ 0xFF ∧ (UInt8.ofNat cmd).toNat ≠ 0xFA := by subst hcmd; decide
   unfold heartbeatRun
   dsimp only
@@ -134,10 +135,10 @@ theorem heartbeatRun_safe (cmd : Nat) (ops : List (String × Nat)) (ud : Bytes) 
     · rename_i hnone; rw [hnone] at hder; cases hder
     · exact Safe.pure trivial
 
-theorem signerHeartbeat_safe (ud : Bytes) : Safe (signerHeartbeat ud) (fun _ => True) (fun _ => False) :=
+theorem signerHeartbeat_safe (ud : Bytes) : Safe lf (signerHeartbeat ud) (fun _ => True) (fun _ => False) :=
   heartbeatRun_safe _ _ _ (by decide) (by decide)
 
-theorem uiHeartbeat_safe (ud : Bytes) : Safe (uiHeartbeat ud) (fun _ => True) (fun _ => False) :=
+theorem uiHeartbeat_safe (ud : Bytes) : Safe lf (uiHeartbeat ud) (fun _ => True) (fun _ => False) :=
   heartbeatRun_safe _ _ _ (by decide) (by decide)
 
 end Dongle
